@@ -17,7 +17,7 @@ from ..util import (
 )
 from ..rfc7515.compact import decode_header
 from ..errors import BadSignatureError
-from .registry import JWSRegistry
+from .registry import JWSRegistry, construct_registry
 
 
 def serialize_compact(
@@ -30,8 +30,7 @@ def serialize_compact(
     if "b64" not in protected:
         return _serialize_compact(protected, payload, private_key, algorithms, registry)
 
-    if registry is None:
-        registry = JWSRegistry(algorithms=algorithms)
+    registry = construct_registry(algorithms, registry)
 
     if protected["b64"] is True:
         return _serialize_compact(protected, payload, private_key, registry=registry)
@@ -65,8 +64,7 @@ def deserialize_compact(
     if obj is None:
         return _deserialize_compact(value, public_key, algorithms, registry)
 
-    if registry is None:
-        registry = JWSRegistry(algorithms=algorithms)
+    registry = construct_registry(algorithms, registry)
 
     if obj is True:
         return _deserialize_compact(value, public_key, registry=registry)
